@@ -199,14 +199,13 @@ def life_keyfn(variant, e, f):
     return "%s.%s(%s) %s%s" % (variant, op, args, f.kind, ("/" + d) if d else "")
 
 
-def life(ctx, exe):
-    cfg = "SockLife_quick.cfg" if ctx.tier == "quick" else "SockLife_thorough.cfg"
+def life_graph(ctx, cfg, need):
     g = Graph()
     per_op = {}
     init = []
 
     def on_edge(e):
-        k = e["op"] + ":" + ",".join(str(a) for a in e["args"][-1:]) if e["op"] in ("open", "accept", "send", "close") else e["op"]
+        k = e["op"] + ":" + ",".join(str(a) for a in e["args"][-1:]) if e["op"] in ("open", "accept", "send", "close", "dup") else e["op"]
         per_op[k] = per_op.get(k, 0) + 1
         if not init and not any(e["pre"]["o"]["ex"]):
             init.append(tok(e["pre"]))
@@ -222,27 +221,46 @@ def life(ctx, exe):
     if not res.ok:
         ctx.report("spec:%s" % cfg, "TLC reports a violated property of the repaired lifecycle mechanism: %s" % (res.violation or "")[:600],
                    {"tlc": res.violation, "cfg": cfg})
-    need = {"new", "recv", "dup", "del", "open:ok", "open:socket", "open:bind", "open:listen", "open:connect", "open:nolistener", "open:unbound", "open:isconn",
-            "accept:ok", "accept:eintr", "accept:bad", "send:ok", "send:epipe", "send:reset", "send:badfd", "send:notconn",
-            "send:peerdead", "close:ok", "close:eintr"}
-    missing = sorted(need - set(per_op))
+    missing = sorted(set(need) - set(per_op))
     if missing:
         raise Broken("vacuity: lifecycle actions/outcomes never taken in %s: %s" % (cfg, missing))
     if not init:
         raise Broken("no initial state seen in %s" % cfg)
-    walks = (200, 40) if ctx.tier == "quick" else (2000, 60)
-    lp = objcheck.replay_cover(ctx, g, [init[0]], exe, "life", [], life_keyfn, walks=walks, jobs=4, env={"VH_WATCHDOG": "10"})
-    rep = ctx.cov["replay"]["life"]
-    ctx.add("distinct_nontrivial", rep["scripts"])      # every lifecycle script opens/closes at least one object or is refused
+    return g, init[0]
+
+
+def life(ctx, exe):
+    q = ctx.tier == "quick"
+    hifd = hifd_possible(ctx)
+    # 1. the full fault alphabet (mode dimension off: recv is the driver's set_nbio ; recv ; clear_nbio)
+    need = {"new", "recvt", "dup:ok", "dup:fail", "del", "open:ok", "open:socket", "open:bind", "open:listen", "open:connect",
+            "open:nolistener", "open:unbound", "open:isconn", "accept:ok", "accept:eagain", "accept:dupfail", "accept:eintr",
+            "accept:bad", "send:ok", "send:epipe", "send:reset", "send:badfd", "send:notconn", "send:peerdead", "close:ok", "close:eintr"}
+    g, init = life_graph(ctx, "SockLife_quick.cfg" if q else "SockLife_thorough.cfg", need)
+    objcheck.replay_cover(ctx, g, [init], exe, "life", [], life_keyfn, walks=(200, 40) if q else (2000, 60), jobs=4,
+                          env={"VH_WATCHDOG": "10"})
+    ctx.add("distinct_nontrivial", ctx.cov["replay"]["life"]["scripts"])   # every lifecycle script opens/closes an object or is refused
     # resource threshold: the same transitions with the process holding > 1000 descriptors, so that what the library opens
     # lands at FD_SETSIZE (1024) or above; k = number of slots left free below 1024 (they are taken first)
-    if hifd_possible(ctx):
-        for k in ([3] if ctx.tier == "quick" else [3, 0, 1]):
+    if hifd:
+        for k in ([0] if q else [0, 3, 1]):
             v = "life-hifd%d" % k
-            objcheck.replay_cover(ctx, g, [init[0]], exe, v, [], life_keyfn, walks=(100, 40) if ctx.tier == "quick" else (500, 60),
-                                  jobs=4, env={"VH_WATCHDOG": "20", "VH_HIFD": str(k)}, max_levels=7 if ctx.tier == "quick" else 9)
+            objcheck.replay_cover(ctx, g, [init], exe, v, [], life_keyfn, walks=(100, 40) if q else (500, 60),
+                                  jobs=4, env={"VH_WATCHDOG": "20", "VH_HIFD": str(k)}, max_levels=7 if q else 9)
             ctx.add("distinct_nontrivial", ctx.cov["replay"][v]["scripts"])
-    return g
+    del g
+    # 2. the mode dimension: the object's NBIO flag beside the descriptor's real O_NONBLOCK mode, set_nbio / clear_nbio on every
+    #    object and copy in any order, accept inheriting the listener's flag, dup() failing; fcntl(F_GETFL) compared after every step
+    need2 = {"new", "recv", "set_nbio", "clear_nbio", "dup:ok", "dup:fail", "del", "open:ok", "open:isconn", "accept:ok", "accept:eagain",
+             "accept:dupfail", "close:ok"}
+    g2, init2 = life_graph(ctx, "SockLife_mode_quick.cfg" if q else "SockLife_mode_thorough.cfg", need2)
+    objcheck.replay_cover(ctx, g2, [init2], exe, "mode", [], life_keyfn, walks=(300, 40) if q else (3000, 60), jobs=4,
+                          env={"VH_WATCHDOG": "10"})
+    ctx.add("distinct_nontrivial", ctx.cov["replay"]["mode"]["scripts"])
+    if hifd:
+        objcheck.replay_cover(ctx, g2, [init2], exe, "mode-hifd0", [], life_keyfn, walks=(100, 40) if q else (500, 60),
+                              jobs=4, env={"VH_WATCHDOG": "20", "VH_HIFD": "0"}, max_levels=7 if q else 9)
+        ctx.add("distinct_nontrivial", ctx.cov["replay"]["mode-hifd0"]["scripts"])
 
 
 def run(ctx):
@@ -271,7 +289,7 @@ def replay(ctx, path):
     rp = d.get("replay") or {}
     env = {"VH_WATCHDOG": "30"}
     env.update(rp.get("env") or {})
-    m = re.match(r"life-hifd(\d+)$", str(rp.get("variant", "")))
+    m = re.match(r"(?:life|mode)-hifd(\d+)$", str(rp.get("variant", "")))
     if m:
         env["VH_HIFD"] = m.group(1)
     return objcheck.replay_file(harness(ctx), [], path, ctx.rundir, env=env)
